@@ -83,7 +83,7 @@ Lemma fanout_good st' from addr m rs refused :
 Proof.
   intros He (_ & Hr & _ & _) Hf. unfold fanout.
   assert (G : forall r, In r (get_recipients (st_own st') false (st_rules st') from addr m) -> M r = false).
-  { intros r H. unfold get_recipients in H. apply recips_owner in H. destruct H as (f & H & _). apply (Hr (r, f) H). }
+  { intros r H. apply get_recipients_owner in H. destruct H as (f & H & _). apply (Hr (r, f) H). }
   destruct ((match from with Some _ => deny_send m false | None => false end) || deny_recv m false); intros E; inversion E; subst.
   - split; [intros ? []|]. apply Forall_forall. intros it H. apply in_map_iff in H. destruct H as (? & <- & _).
     apply refusal_item_good; auto.
@@ -278,7 +278,7 @@ Proof. intros He Hm. unfold get_id. simpl. constructor; [apply from_driver_good;
 
 Lemma driver_generic_good st' c m : mon_ext st' -> M c = false -> Forall item_good (snd (driver_generic st' c m)).
 Proof.
-  intros He Hm. unfold driver_generic. destruct (b_type m); simpl; try (constructor; fail).
+  intros He Hm. unfold driver_generic. destruct (b_type m) as [[| | |]|n]; simpl; try (constructor; fail).
   constructor; [apply error_reply_good; auto | constructor].
 Qed.
 
